@@ -147,7 +147,12 @@ def second_root():
     """a second project directory whose m1.py differs from genproject/m1.py (reconfiguration must not keep the old one)"""
     global ROOT2
     if ROOT2 is None or not os.path.exists(ROOT2):
-        ROOT2 = tempfile.mkdtemp(prefix='c15_root2_')
+        shared = os.environ.get('C15_ROOT2')        # made (and removed) by run(); workers of the pool never clean up themselves
+        if shared:
+            os.makedirs(shared, exist_ok=True)
+            ROOT2 = shared
+        else:
+            ROOT2 = tempfile.mkdtemp(prefix='c15_root2_')
         with open(os.path.join(ROOT2, 'm1.py'), 'w') as f:
             f.write('\n\nonly_in_root2 = 1\n\n\ndef fn1():\n    return 2\n')
     return ROOT2
@@ -624,9 +629,14 @@ def run(ctx):
         units.append((unit_faults, (seq, 2 if quick else 3)))
     for lo in range(120, 420, 20):
         units.append((unit_stack, (lo, lo + 20)))
-    ctx.pmap(_dispatch, units, chunksize=1)
-    labels = sorted(real_cases(ctx.tier))
-    ctx.pmap(unit_real, [(ctx.tier, l) for l in ctx.shuffled(labels)], chunksize=1, jobs=8)
+    os.environ['C15_ROOT2'] = tempfile.mkdtemp(prefix='c15_root2_')
+    try:
+        second_root()
+        ctx.pmap(_dispatch, units, chunksize=1)
+        labels = sorted(real_cases(ctx.tier))
+        ctx.pmap(unit_real, [(ctx.tier, l) for l in ctx.shuffled(labels)], chunksize=1, jobs=8)
+    finally:
+        shutil.rmtree(os.environ.pop('C15_ROOT2'), ignore_errors=True)
     c = ctx.counters
     ctx.coverage.update({
         'states': int(c['states']),
